@@ -177,7 +177,13 @@ func VHC18Shapes() {
 	s1 := vh.Bytes("s1", 1)
 	s2 := vh.Bytes("s2", 2)
 	doc := map[string]any{"a": s1, "b": s2, "n": 4.5}
-	switch vh.Choose("shape", 16) {
+	switch vh.Choose("shape", 17) {
+	case 16:
+		// literal text is copied byte for byte, whatever the bytes (Latin-1, stray
+		// continuation bytes, a truncated multi-byte sequence)
+		lit := []string{"caf\xe9 ", "\x80\xbf|", "\xe6\x97", "\xff\xfe\xfd", "ok \u00e9 \xe9"}[vh.Choose("rawlit", 5)]
+		_, k, out := evalExpr("printf('"+lit+"%s"+lit+"', $.a)", doc)
+		vh.Assert(k == OK && out == lit+s1+lit, "C18: the literal text of a format is written byte for byte")
 	case 14:
 		// a regex is not a string: neither as the format nor as a %s argument
 		_, k, out := evalExpr([]string{"printf('<%s>', /ab+c/)", "printf(/x%sy/, 'a')", "printf('%5s|', /a/)", "printf('%f', /1/)"}[vh.Choose("re", 4)], doc)
